@@ -283,7 +283,10 @@ pub fn jenkins_hashlittle2(filename: &str, hash_bits: u32) -> (u64, u8) {
         let or_mask = 1u64 << (hash_bits - 1);
         (and_mask, or_mask)
     } else {
-        (0xFFFFFFFFFFFFFFFF, 0)
+        // The full width keeps every bit of the hash, and the top bit is set like for
+        // every other width: name hash 1 (the top eight bits) of a file is never 0,
+        // which marks a free HET slot
+        (u64::MAX, 1u64 << 63)
     };
 
     // Apply masks
